@@ -1,6 +1,7 @@
 package main
 
 import (
+	"sort"
 	"fmt"
 	"regexp"
 	"strings"
@@ -99,6 +100,78 @@ func ruleX4(p *Prog, r *Report, rule string) *qf {
 			return fail("the matcher does not consult " + name)
 		}
 	}
+	// premise of reading the loops as quantifiers: the matchers are functions of the pair — they write
+	// no field of any object (a matcher that flips or caches inside the pair carries state from one
+	// comparison to the next when the pair is reused)
+	for _, name := range []string{"(*nodePair).licensesAreCompatible", "(*nodePair).licenseRefsAreCompatible"} {
+		m := p.Func(p.ExpPkg, name)
+		if m == nil {
+			r.Unknown(rule, "matcher "+name, "-", "unresolved anchor")
+			continue
+		}
+		ws := writesToExisting(p, m, map[*ssa.Function]bool{})
+		if len(ws) > 0 {
+			sort.Strings(ws)
+			r.Bad(rule, "matcher "+name+"|pure", p.pos(m.Pos()), fmt.Sprintf("%s writes memory that existed before the call (%s): the outcome of one comparison can depend on the comparisons made before it, so the verdict is not the ∃∀∃ formula the loops suggest", name, strings.Join(ws, "; ")))
+		} else {
+			r.OK(rule, "matcher "+name+"|pure", p.pos(m.Pos()), "writes only objects it allocates itself", "", false)
+		}
+	}
 	r.OK(rule, "Satisfies|verdict", pos, "∃∀∃ with both pair matchers", f.String(), true)
 	return f
+}
+
+// writesToExisting: the stores (in f and everything it calls in the module) whose target is not inside an
+// object allocated by the storing function itself — i.e. writes to receiver, arguments, globals.
+func writesToExisting(p *Prog, f *ssa.Function, seen map[*ssa.Function]bool) []string {
+	if f == nil || seen[f] || !p.InModule(f) {
+		return nil
+	}
+	seen[f] = true
+	var out []string
+	freshBase := func(v ssa.Value) bool {
+		for d := 0; d < 8; d++ {
+			switch t := v.(type) {
+			case *ssa.Alloc, *ssa.MakeSlice, *ssa.MakeMap:
+				return true
+			case *ssa.FieldAddr:
+				v = t.X
+			case *ssa.IndexAddr:
+				v = t.X
+			case *ssa.Slice:
+				v = t.X
+			default:
+				return false
+			}
+		}
+		return false
+	}
+	for _, b := range f.Blocks {
+		for _, in := range b.Instrs {
+			switch t := in.(type) {
+			case *ssa.Store:
+				if !freshBase(t.Addr) {
+					out = append(out, fmt.Sprintf("%s: store through %s", p.pos(t.Pos()), describe(t.Addr)))
+				}
+			case *ssa.MapUpdate:
+				if !freshBase(t.Map) {
+					out = append(out, fmt.Sprintf("%s: map update", p.pos(t.Pos())))
+				}
+			case ssa.CallInstruction:
+				if c := t.Common().StaticCallee(); c != nil {
+					if p.InModule(c) {
+						out = append(out, writesToExisting(p, c, seen)...)
+					} else if si := classifyStd(c); si.Class == stdMutatesArg && si.MutArg < len(t.Common().Args) && !freshBase(t.Common().Args[si.MutArg]) {
+						out = append(out, fmt.Sprintf("%s: %s rewrites its argument", p.pos(in.Pos()), c))
+					}
+				}
+				for _, a := range t.Common().Args {
+					if mc, ok := a.(*ssa.MakeClosure); ok {
+						out = append(out, writesToExisting(p, mc.Fn.(*ssa.Function), seen)...)
+					}
+				}
+			}
+		}
+	}
+	return out
 }
